@@ -1,8 +1,8 @@
 ---------------------------- MODULE CiMergeTrace ----------------------------
 (* Trace validation (B2) for CiMerge.  Each line of the ndjson file is one recorded execution of the real
    ci.github.WatchedBranch / PR objects against the fake GitHub / Batch service (checks/_ci_fake.py):
-     [ev |-> << [a |-> action name, (arguments), post |-> Snap of the implementation + environment], ... >>]
-   Every event must be a step of CiMerge with the logged arguments whose successor state projects (Snap) to
+     [ev |-> << [a |-> action name, (arguments), post |-> CI's cache + pending request + environment], ... >>]
+   Every event must be a step of CiMerge with the logged arguments whose successor state agrees (PostOk) with
    the logged post-state.  All invariants of CiMerge (the property) are evaluated along the way; a trace that
    cannot be continued is a deadlock of this specification.  PRs must be 1..N here (functions = JSON arrays). *)
 EXTENDS CiMerge, Json, IOUtils
@@ -15,14 +15,16 @@ TraceInit == Init /\ tid \in 1..Len(Traces) /\ l = 1
 
 Ev == Traces[tid].ev
 
-Flags(S) == [x \in Labels |-> x \in S]
-SnapPR(p) == [src |-> p.src, lab |-> Flags(p.lab), rev |-> p.rev, lks |-> p.lks, bat |-> p.bat, btgt |-> p.btgt,
-              bs |-> p.bs, intd |-> p.intd]
-Snap == [ghT |-> ghT, npush |-> npush, ghHead |-> ghHead, ghOpen |-> ghOpen, ghRev |-> ghRev,
-         ghLab |-> [n \in PRs |-> Flags(ghLab[n])], ghExt |-> ghExt, ghCi |-> ghCi, batches |-> batches,
-         ci |-> [pc |-> ci.pc, sha |-> ci.sha, prs |-> ci.prs, pr |-> [n \in PRs |-> SnapPR(ci.pr[n])],
-                 gc |-> ci.gc, bc |-> ci.bc, sc |-> ci.sc, upd |-> ci.upd, crash |-> ci.crash,
-                 nrun |-> ci.nrun, cand |-> ci.cand]]
+\* what is compared: CI's whole cache and pending request, and the part of the environment CI's requests change
+\* (the rest of the environment changes only by the logged human actions themselves)
+PROk(p, j) == /\ p.src = j.src /\ p.lab = SeqSet(j.lab) /\ p.rev = j.rev /\ p.lks = j.lks /\ p.bat = j.bat
+              /\ p.btgt = j.btgt /\ p.bs = j.bs /\ p.intd = j.intd
+PostOk(j) ==
+  /\ ghT' = j.ghT /\ ghOpen' = j.ghOpen /\ ghCi' = j.ghCi /\ batches' = j.batches
+  /\ LET c == ci' d == j.ci IN
+     /\ c.pc = d.pc /\ c.sha = d.sha /\ c.prs = d.prs /\ \A n \in PRs : PROk(c.pr[n], d.pr[n])
+     /\ c.gc = d.gc /\ c.bc = d.bc /\ c.sc = d.sc /\ c.upd = d.upd /\ c.crash = d.crash
+     /\ c.nrun = d.nrun /\ c.cand = d.cand
 
 Act(e) ==
   CASE e.a = "Setup"       -> Setup(e.rv, [n \in PRs |-> SeqSet(e.lb[n])])
@@ -46,7 +48,7 @@ Act(e) ==
 TraceStep ==
   /\ l <= Len(Ev)
   /\ Act(Ev[l])
-  /\ Snap' = Ev[l].post
+  /\ PostOk(Ev[l].post)
   /\ l' = l + 1 /\ UNCHANGED tid
 
 TraceDone == l > Len(Ev) /\ UNCHANGED tvars
